@@ -1,11 +1,13 @@
 (** * The domain and the root causes that apply to the reader /repo has now
-    ([Gen.Consts.nt_fixed_tok]: tokeniser repairs present or not; [nt_fixed_dlt]: typing repair). *)
+    ([Gen.Consts.nt_fixed_tok]: tokeniser repairs present or not; [nt_fixed_dlt]: typing repair;
+    [nt_tok_end_at_hash]: a token also ends at '#', notes/proposed_fixes/C06-comment-glued-to-dot.diff). *)
 From Coq Require Import List Ascii String ZArith Bool.
 From Shexer Require Import Lib.PyStr Gen.Consts Spec.NtSyntax Spec.NtDom.
 Import ListNotations.
 
 Definition C06_dom_cur (t : striple) (l : layout) : bool :=
-  if nt_fixed_tok then (if nt_fixed_dlt then C06_dom_fx2 t l else C06_dom_fx t l) else C06_dom t l.
+  if nt_fixed_tok then (if nt_fixed_dlt then C06_dom_fx3 nt_tok_end_at_hash t l else C06_dom_fx t l) else C06_dom t l.
 
 Definition root_causes_cur (t : striple) (l : layout) : list bool :=
-  if nt_fixed_tok then (if nt_fixed_dlt then root_causes_fx2 t l else root_causes_fx t l) else root_causes t l.
+  if nt_fixed_tok then (if nt_fixed_dlt then root_causes_fx3 nt_tok_end_at_hash t l else root_causes_fx t l)
+  else root_causes t l.
